@@ -152,7 +152,7 @@ def recipes():
         Recipe("tw_absolute_error", g_point, lambda x, **k: C.tw_absolute_error(x[0], x[1], (1, 3), **k), weights=True, obs_extra=True),
         Recipe("tw_quantile_score", g_point, lambda x, **k: C.tw_quantile_score(x[0], x[1], 0.3, (1, 3), **k), weights=True),
         Recipe("tw_huber_loss_trapezoid", g_point, lambda x, **k: C.tw_huber_loss(x[0], x[1], 1.5, (1, 2), interval_where_positive=(0, 3), **k), weights=True),
-        Recipe("firm", g_point, lambda x, **k: K.firm(x[0], x[1], 0.3, [1, 2], [1, 2], discount_distance=1.0, **k), weights=True, obs_extra=True),
+        Recipe("firm", g_point, lambda x, **k: K.firm(x[0], x[1], 0.3, [1, 2], [1, 2], discount_distance=1.0, **k), weights=True),
         Recipe("probability_of_detection", g_binary, lambda x, **k: K.probability_of_detection(x[0], x[1], **k), dataset=K.probability_of_detection, weights=True, kind="ratio", obs_extra=True),
         Recipe("probability_of_false_detection", g_binary, lambda x, **k: K.probability_of_false_detection(x[0], x[1], **k), weights=True, kind="ratio", obs_extra=True),
         Recipe("brier_score", g_prob, lambda x, **k: P.brier_score(x[0], x[1], **k), dataset=P.brier_score, weights=True, obs_extra=True),
